@@ -70,6 +70,12 @@ def build_A(case):
     elif kind == "skew":
         S = rng.standard_normal((n, n))
         A = S - S.T
+    elif kind == "integer":
+        # whole-number matrix held in an integer array and an integer step (a caller's A = [[0, 1], [-4, -1]], h = 1):
+        # no rescaling; shifted so that exp() stays moderate
+        A = rng.integers(-3, 4, (n, n)).astype(float)
+        A -= np.diag(np.ceil(np.maximum(np.linalg.eigvals(A).real.max(), 0.0)) * np.ones(n))
+        return A, float(case["hint"])
     else:
         raise ValueError(kind)
     n = A.shape[0]
@@ -170,6 +176,9 @@ def oracle_expm(case, R):
 
     Afloat = A
     A, lab_ = util.repack(Afloat, case.get("apack", "same"))      # documented: 2d ndarray (any dtype / layout)
+    if case["kind"] == "integer":
+        A, lab_ = util.repack(Afloat, "int")
+        h = int(h)                                                # an integer step with an integer matrix
     R.label("A:" + lab_)
     with warnings.catch_warnings(record=True) as wl:
         warnings.simplefilter("always")
@@ -271,7 +280,7 @@ KNOWN = {"F11": KNOWN_F11, "F40": KNOWN_F40}
 @st.composite
 def expm_cases(draw):
     kind = draw(st.sampled_from(["dense", "dense", "upper", "diag", "jordan", "nilpotent_dense",
-                                 "singular", "singular_upper", "zero", "mbk", "stiff", "skew"]))
+                                 "singular", "singular_upper", "zero", "mbk", "stiff", "skew", "integer"]))
     n = draw(st.integers(1, 6) if kind not in ("mbk", "stiff") else st.sampled_from([2, 4, 6]))
     if kind in ("jordan", "nilpotent_dense", "singular", "singular_upper", "skew"):
         n = max(n, 2)
@@ -282,7 +291,7 @@ def expm_cases(draw):
         norm = draw(st.sampled_from(THETAS)) * draw(st.sampled_from([0.9, 0.999, 1.001, 1.1, 1.5]))
     if kind in ("singular", "singular_upper", "jordan", "nilpotent_dense") and draw(st.booleans()):
         norm = min(norm, 10.0 ** draw(st.floats(-3, 1.0)))     # keep most of them below F11 land
-    return {"kind": kind, "n": n, "seed": draw(st.integers(0, 2 ** 31)), "norm": norm,
+    return {"kind": kind, "n": n, "seed": draw(st.integers(0, 2 ** 31)), "norm": norm, "hint": draw(st.sampled_from([1, 2, 3])),
             # any step: usually 1e-4 .. 1e2, sometimes the steps of slow dynamics in small units (years in
             # seconds: the entries of A are then far below 1e-8 in absolute terms) or of very fast ones
             "h": (10.0 ** draw(st.floats(-4, 2)) if draw(st.integers(0, 4)) else
